@@ -663,3 +663,41 @@ def class_state_writes(mod):
                     if hit:
                         out.append((f, st, '%s.%s' % (cls.name, name), hit, 'class-level'))
     return out
+
+
+def length_defaults(ctx, rule, rel, qual, params, floor=1):
+    """LENGTH-DEFAULTS: a default written as `if p is None: p = <value>` for a parameter that is a length is a length in working units -- evaluated under two sizes of the
+    working length unit (one angstrom = 1 and = 1/10, i.e. angstrom and nanometre working units) the default scales with it (or is zero).  A bare number would be 0.5 of
+    whatever the working unit happens to be."""
+    import sympy as sp
+    from .symx import SymEval, PyStub, Path, Opaque, WouldRaise, module_aliases
+    fn = ctx.fn(rel, qual)
+    n = 0
+    for st in ast.walk(fn):
+        if not (isinstance(st, ast.If) and isinstance(st.test, ast.Compare) and len(st.test.ops) == 1 and isinstance(st.test.ops[0], ast.Is) and isinstance(st.test.left, ast.Name)
+                and st.test.left.id in params and isinstance(st.test.comparators[0], ast.Constant) and st.test.comparators[0].value is None):
+            continue
+        for a in st.body:
+            if not (isinstance(a, ast.Assign) and len(a.targets) == 1 and isinstance(a.targets[0], ast.Name) and a.targets[0].id == st.test.left.id):
+                continue
+            vals = []
+            for U in (sp.Integer(1), sp.Rational(1, 10)):
+                class UC(PyStub):
+                    def set_in_units(self, v, u, _U=U):
+                        if u not in ('angstrom', 'Angstrom', 'Å'):
+                            raise Opaque('set_in_units(%r, %r)' % (v, u))
+                        return sp.nsimplify(v) * _U
+                ev = SymEval(module_aliases(ctx.mod(rel)))
+                ev.globals = {'uc': UC()}
+                try:
+                    vals.append(sp.sympify(ev.ev(a.value, Path({}))))
+                except (Opaque, WouldRaise, TypeError, sp.SympifyError):
+                    vals = None
+                    break
+            if vals is None:
+                continue          # a default computed from other arguments: judged where it is used
+            n += 1
+            ok = vals[0] == 0 or sp.simplify(vals[1] - vals[0] / 10) == 0
+            ctx.ob(rule, '%s::%s' % (rel, qual), 'the default of the length `%s` is a length in working units (it scales with the size of the working length unit)' % st.test.left.id, bool(ok),
+                   'default %s under angstrom working units, %s under nanometre working units' % (vals[0], vals[1]), node=a, key='length default %s %s' % (qual, st.test.left.id))
+    ctx.floor('%s/%s' % (rule, qual), n, floor)
